@@ -252,11 +252,12 @@ type e1gen struct {
 	ch   *Choices
 	mode E1Mode
 	cfg  E1Config
+	st   string // current decision stream: "cfg", "rpc<k>", "faults"
 }
 
-func (g *e1gen) pick(n int) int          { return g.ch.Pick("prog", n) }
-func (g *e1gen) chance(p float64) bool   { return g.ch.Bool("prog", p) }
-func (g *e1gen) weighted(w ...int) int   { return g.ch.Weighted("prog", w) }
+func (g *e1gen) pick(n int) int        { return g.ch.Pick(g.st, n) }
+func (g *e1gen) chance(p float64) bool { return g.ch.Bool(g.st, p) }
+func (g *e1gen) weighted(w ...int) int { return g.ch.Weighted(g.st, w) }
 
 var delayTable = []int{0, 1, 2, 4, 8, 16, 32, 64, 128}
 
@@ -475,7 +476,7 @@ func (g *e1gen) misbehave(r *RPCSpec) {
 	// truncate either script at a random point and pick a rude ending
 	if len(r.COps) > 0 && g.chance(0.6) {
 		r.COps = r.COps[:g.pick(len(r.COps)+1)]
-		r.CEnd = g.weighted(3, 2, 2, 1)
+		r.CEnd = g.weighted(3, 2, 2)
 	}
 	if len(r.HOps) > 0 && g.chance(0.6) {
 		r.HOps = r.HOps[:g.pick(len(r.HOps)+1)]
@@ -553,12 +554,18 @@ func (g *e1gen) rpc(idx int) *RPCSpec {
 }
 
 func genE1(ch *Choices, mode E1Mode) *E1Prog {
-	g := &e1gen{ch: ch, mode: mode}
+	g := &e1gen{ch: ch, mode: mode, st: "cfg"}
 	g.cfg = g.drawConfig()
 	p := &E1Prog{Cfg: g.cfg, Probe: mode.Probe}
 	n := 1 + g.pick(mode.MaxRPCs)
 	p.NTasks = 1 + g.pick(mode.MaxTasks)
 	for i := 0; i < n; i++ {
+		g.st = fmt.Sprintf("rpc%d", i)
+		// default (0) = slot absent, so that the minimiser can drop an rpc
+		// without disturbing the others
+		if !g.chance(0.92) {
+			continue
+		}
 		r := g.rpc(i)
 		r.Task = 0
 		if p.NTasks > 1 {
@@ -566,6 +573,7 @@ func genE1(ch *Choices, mode E1Mode) *E1Prog {
 		}
 		p.RPCs = append(p.RPCs, r)
 	}
+	g.st = "faults"
 	if g.chance(mode.StallP) {
 		k := []string{"stall-c2s", "stall-s2c"}[g.pick(2)]
 		p.FaultTask = append(p.FaultTask, FaultTask{Kind: k, Delay: g.delay()})
